@@ -63,6 +63,7 @@ func runC19(c *core.Ctx) core.Meta {
 	// ---------------- PMC ----------------
 	p := NewPkgInfo(c, pmcPkg)
 	RunProto(c, &ProtoCfg{
+		AllEffectsAfterSend: true,
 		RuleBase: "R19.1.pmc", Pkg: pmcPkg, FloorSends: 5,
 		Effects: []Effect{
 			RetrieveEffect,
@@ -277,6 +278,7 @@ func runC19(c *core.Ctx) core.Meta {
 	// ---------------- CP ctrl middleware ----------------
 	pc := NewPkgInfo(c, cpPkg)
 	RunProto(c, &ProtoCfg{
+		AllEffectsAfterSend: true,
 		RuleBase: "R19.1.cp", Pkg: cpPkg, FloorSends: 13,
 		Effects:   []Effect{RetrieveEffect},
 		SkipRoots: cpSequencers,
@@ -294,6 +296,7 @@ func runC19(c *core.Ctx) core.Meta {
 	// ---------------- driver handshake ----------------
 	pd := NewPkgInfo(c, driverPkg)
 	RunProto(c, &ProtoCfg{
+		AllEffectsAfterSend: true,
 		RuleBase: "R19.1.driver", Pkg: driverPkg, FloorSends: 3,
 		Effects: []Effect{
 			RetrieveEffect,
